@@ -121,7 +121,9 @@ def states_for(d, rng, n_mixed):
     from bounded import gen
     L = sorted(leaves_of(d, set()))
     ids = [l for l in L if l[0] == 'id' and l[1] != 'p32']
-    mems = [l for l in L if l[0] == 'mem']
+    # only cells whose address is in normal form can be part of a machine state (eval_instr stores cells under simplified addresses; a state
+    # keyed by an unsimplified address is outside the machine's invariant): reads through other addresses stay unbound
+    mems = [l for l in L if l[0] == 'mem' and l[1][0] == 'id']
     def binding(leaf, kind, j=0):
         w = leaf[2]
         cs = gen.consts(w)
